@@ -387,9 +387,20 @@ func main() {
 	}
 	repo := flag.String("repo", def, "repository root")
 	out := flag.String("out", "", "write JSON here (default stdout)")
+	set := flag.String("set", "sm", "sm = internal/execute/sm/sm.go (mechanism models); api = internal/execute/execute.go (Start, runPlan, Wait; C12)")
 	flag.Parse()
 
 	path := filepath.Join(*repo, "internal", "execute", "sm", "sm.go")
+	switch *set {
+	case "sm":
+	case "api":
+		path = filepath.Join(*repo, "internal", "execute", "execute.go")
+		whole = []string{"Start", "runPlan", "Wait"}
+		makeChanOnly = nil
+	default:
+		fmt.Fprintln(os.Stderr, "unknown -set", *set)
+		os.Exit(2)
+	}
 	fset := token.NewFileSet()
 	file, err := parser.ParseFile(fset, path, nil, parser.SkipObjectResolution)
 	if err != nil {
@@ -444,16 +455,18 @@ func main() {
 	for _, n := range whole {
 		add(n, false)
 	}
-	// the worker pool / group whose semantics Limiter.v transcribes is a pinned dependency
-	mod, _ := os.ReadFile(filepath.Join(*repo, "go.mod"))
-	dep := "UNKNOWN:gostdlib/base not required"
-	for _, l := range strings.Split(string(mod), "\n") {
-		f := strings.Fields(l)
-		if len(f) >= 2 && f[0] == "github.com/gostdlib/base" {
-			dep = f[0] + " " + f[1]
+	if *set == "sm" {
+		// the worker pool / group whose semantics Limiter.v transcribes is a pinned dependency
+		mod, _ := os.ReadFile(filepath.Join(*repo, "go.mod"))
+		dep := "UNKNOWN:gostdlib/base not required"
+		for _, l := range strings.Split(string(mod), "\n") {
+			f := strings.Fields(l)
+			if len(f) >= 2 && f[0] == "github.com/gostdlib/base" {
+				dep = f[0] + " " + f[1]
+			}
 		}
+		fns = append(fns, fn{Name: "go.mod", Tokens: []tok{{T: dep}}})
 	}
-	fns = append(fns, fn{Name: "go.mod", Tokens: []tok{{T: dep}}})
 
 	var sb strings.Builder
 	sb.WriteString("[\n")
